@@ -76,6 +76,25 @@ def c11_determinism(seed, tier, n):
     return {'seeds': n, 'executions_each': 5, 'worker_counts': [16, 4, 1], 'single_worker_prefix': 48, 'fresh_interpreter_hashseeds': [0, 4242], 'diverged': 0}
 
 
+def c11_token_table():
+    """The generator's table of token-list lengths per renderer configuration must match the tree (it decides which
+    add_token positions are 'every index'). Measured in forks; a mismatch is a harness error."""
+    from . import c11_world as W, c11_gen as G
+    from mistletoe import block_token, span_token
+    n = 0
+    for rid in W.RENDERER_IDS:
+        for opts in W.OPTIONS[rid]:
+            def fn(emit, rid=rid, opts=opts):
+                with W.renderer_class(rid)(**opts):
+                    emit((len(block_token._token_types), len(span_token._token_types)))
+            frames, status = core.fork_stream(fn, 20)
+            if status != 'ok' or tuple(frames[0]) != tuple(G._extras(rid, opts)):
+                raise core.HarnessError('token-list table out of date for %s %s: tree has %s, generator assumes %s'
+                                        % (rid, opts, frames[:1], G._extras(rid, opts)))
+            n += 1
+    return {'configs': n, 'mismatches': 0}
+
+
 def c11_oracle_fidelity(seed, n):
     from . import c11_check as C, c11_docs as D, c11_world as W, c11_gen as G
     rng = random.Random(core.derive(seed, 'C11', 'oracle-selftest'))
